@@ -25,6 +25,9 @@ NA = {
 
 # property -> (category, technique, level text, level note, design ref)
 CLAIMED = {
+    "C31": ("model_checking", "symbolic execution of the real model on Toll architectures vs loop-nest executor, decided by z3 (bounded SMT)",
+            "Bounded SMT on Toll architectures (Toll between Main/GLB and between GLB/RF) with all 27 per-tensor direction assignments over the family: Toll write actions and occupancy are identically 0, Toll read actions equal the values crossing it in the configured direction(s) divided by values per action, for all trip counts in [1,3]/[1,4] and all costs.",
+            "Model-level clauses only: the third clause (returned mappings) is covered only through run_model's guard, exercised on one two-Einsum mapping; otherwise as C05.", "4/C31"),
     "C05": ("model_checking", "symbolic execution of the real model (evaluate_mapping/run_model on sympy symbols) vs guarded-unrolling executor, decided by z3 (bounded SMT)",
             "Bounded SMT: for each of ~150 (quick) / ~900 (thorough) mapping skeletons the real model runs once with every numeric input symbolic; z3 shows each read/write/compute count equals an operational loop-nest executor for all trip counts in [1,3]/[1,4] per loop and all positive bit widths, values-per-action, energies, throughputs; energy/latency columns are shown to be the documented functions of those counts for arbitrary tile shapes.",
             "Skeleton family: MM/MV/CONV1 on 2-3 level hierarchies with optional Toll, <=2 temporal loops per rank variable, no spatial loops; mixed skip_initial_output_write flags follow the semantics pinned by tests/test_model.py (a component's flag governs its own actions); sympy cancel/expand in the trusted base; a concrete validation sweep (real code on numbers vs naive simulator) accompanies every instantiation.", "4/C05"),
